@@ -89,11 +89,13 @@ def _run(sc, r, scratch, i):
         before.update(inventory.take(sd))
     log = os.path.join(d, "shim.log")
     env = shimlog.shim_env(log, [troot] + ([target] if target else []), ficlone=emulate)
-    dres, dargv = dd.run_dedupe(op, cfg, report, troot, home, target=target, extra_env=env)
+    # the dedupe command need not run where `group` ran (the report carries absolute paths and its base directory)
+    dcwd = r.choice([troot, troot, d, "/"])
+    dres, dargv = dd.run_dedupe(op, cfg, report, dcwd, home, target=target, extra_env=env)
     after = {}
     for sd in scan_dirs:
         after.update(inventory.take(sd))
-    witness.update({"dedupe_argv": [fsd(a) for a in dargv], "dedupe_rc": dres.rc, "dedupe_stderr": dres.err_text()[-2500:],
+    witness.update({"dedupe_cwd": dcwd, "dedupe_argv": [fsd(a) for a in dargv], "dedupe_rc": dres.rc, "dedupe_stderr": dres.err_text()[-2500:],
                     "report": report.decode("utf-8", "replace")[:6000], "emulate_ficlone": emulate, "target": target})
     if dres.timed_out:
         return [inconclusive("dedupe timed out")]
